@@ -67,14 +67,21 @@ func (r fixedRT) RoundTrip(req *http.Request) (*http.Response, error) {
 
 var sentinel = &autoconf.Config{AutoConfVersion: -1}
 
+// cacheSize is the number of versions the client keeps (0 = the library default).
+var cacheSize = 0
+
 func newClient(dir string, body []byte, etag string) (*autoconf.Client, error) {
-	return autoconf.NewClient(
+	var extra []autoconf.Option
+	if cacheSize > 0 {
+		extra = append(extra, autoconf.WithCacheSize(cacheSize))
+	}
+	return autoconf.NewClient(append(extra,
 		autoconf.WithCacheDir(dir),
 		autoconf.WithURL(confURL),
 		autoconf.WithHTTPClient(&http.Client{Transport: fixedRT{body, etag}}),
 		autoconf.WithRefreshInterval(time.Nanosecond),
 		autoconf.WithFallback(func() *autoconf.Config { return sentinel }),
-	)
+	)...)
 }
 
 // TestC45Helper performs exactly one update; it is run by TestC45 under strace.
@@ -83,6 +90,7 @@ func TestC45Helper(t *testing.T) {
 	if dir == "" {
 		t.Skip("helper only")
 	}
+	cacheSize, _ = strconv.Atoi(os.Getenv("C45_HELPER_CACHESIZE"))
 	body, err := os.ReadFile(os.Getenv("C45_HELPER_PAYLOAD"))
 	if err != nil {
 		t.Fatal(err)
@@ -301,9 +309,11 @@ func TestC45(t *testing.T) {
 		"and the real GetCached called on it; a case = one (history, operation log, <=60 crash observations); " +
 		"non-trivial = at least one earlier version exists and the observations include a cut inside the payload write; distinct by (k, payload sizes, observation range)")
 	cs := vh.NewCases(e, "From V Require Import model.M_C45.\nOpen Scope N_scope.", "case", "check_case", 40)
-	rounds := e.Pick(2, 12)
+	rounds := e.Pick(3, 12)
 	totalStates := 0
 	for round := 0; round < rounds; round++ {
+		// the retained-version count: the default, the minimum (1) and 2, so that pruning happens within the traced update
+		cacheSize = []int{0, 1, 2}[round%3]
 		for k := 0; k <= 3; k++ {
 			payloads := map[int][]byte{}
 			for v := 1; v <= k+1; v++ {
@@ -358,7 +368,7 @@ func TestC45(t *testing.T) {
 				"-e", "trace=open,openat,write,pwrite64,close,rename,renameat,renameat2,unlink,unlinkat",
 				os.Args[0], "-test.run", "^TestC45Helper$", "-test.count=1")
 			cmd.Env = append(os.Environ(), "C45_HELPER_DIR="+dir, "C45_HELPER_PAYLOAD="+pf,
-				fmt.Sprintf("C45_HELPER_ETAG=\"v%d\"", vnew))
+				fmt.Sprintf("C45_HELPER_ETAG=\"v%d\"", vnew), fmt.Sprintf("C45_HELPER_CACHESIZE=%d", cacheSize))
 			if out, err := cmd.CombinedOutput(); err != nil {
 				t.Fatalf("traced update failed: %v\n%s", err, out)
 			}
@@ -467,11 +477,12 @@ func TestC45(t *testing.T) {
 				}
 				term := fmt.Sprintf("{| c_lens := %s; c_dir0 := %s; c_before := %s; c_vnew := %d; c_ops := %s; c_obs := %s |}",
 					vh.List(lens), vh.List(d0), before, vnew, vh.List(opsCoq), vh.List(oc))
-				rp := map[string]any{"earlier_updates": k, "payload_lengths": lens, "dir_before": names, "read_before": before,
+				rp := map[string]any{"cache_size(0=default)": cacheSize, "earlier_updates": k, "payload_lengths": lens, "dir_before": names, "read_before": before,
 					"ops": opsDesc, "observations": fmt.Sprintf("crash points %d..%d of %d: (complete ops, byte cut, GetCached result) = %v",
 						g, hi-1, len(obsl), oc)}
 				cs.Add(term, rp)
-				st.Case(fmt.Sprintf("k=%d|%v|%d", k, lens, g), k >= 1 && payloadCut)
+				st.Case(fmt.Sprintf("cs=%d|k=%d|%v|%d", cacheSize, k, lens, g), k >= 1 && payloadCut)
+				st.Count(fmt.Sprintf("cache-size=%d", cacheSize))
 				st.Count(fmt.Sprintf("earlier-updates=%d", k))
 				if g == 0 {
 					st.Sample(map[string]any{"earlier_updates": k, "ops": opsDesc, "crash_states": len(obsl), "read_before": before}, 4)
